@@ -5,6 +5,7 @@ AbbrRepeat.tla: generator + step-level copy machine (EnterNode/BeginCopy/NextKid
 contracts, the budget arithmetic, "no second copy begins once the budget is used up", padding.  Every terminal state
 prints abbreviation + limit + expected listing, replayed through expand(abbr, {'maxRepeat': limit}).
 """
+import copy
 import zlib
 
 import common
@@ -46,12 +47,22 @@ def _chunk(vecs):
         if snippets:
             cfg['snippets'] = snippets
             case['snippets'] = snippets
+        before = copy.deepcopy(cfg)
         try:
             with common.Alarm(20):
                 text = emmet.expand(v['abbr'], cfg)
+                if cfg.get('maxRepeat') and zlib.crc32(v['abbr'].encode()) % 3 == 0:
+                    # the limit belongs to the call that carries it: the same dict without it expands without a limit afterwards
+                    lim = cfg.pop('maxRepeat')
+                    free = emmet.expand(v['abbr'], cfg)
+                    cfg['maxRepeat'] = lim
+                    if free != emmet.expand(v['abbr'], {k: x for k, x in cfg.items() if k not in ('maxRepeat', 'max_repeat')}):
+                        bad.append(('copies', dict(case, detail='the limit of an earlier call with the same configuration dict is still applied', actual=free)))
         except Exception as ex:
             bad.append(('expand raised', dict(case, exception=type(ex).__name__, site=common.innermost_emmet_frame(ex))))
             continue
+        if cfg != before:
+            bad.append(('caller configuration modified', dict(case, before=repr(before), after=repr(cfg))))
         try:
             got = [x for x in ph.tree(ph.lex(text)) if x['n'] != '#text']
         except ph.LexError as ex:
